@@ -1,3 +1,538 @@
 package main
 
-func cmdCheck(args []string) int { return 2 }
+import (
+	"crypto/sha1"
+	"encoding/json"
+	"flag"
+	"fmt"
+	"os"
+	"path/filepath"
+	"runtime"
+	"sort"
+	"strconv"
+	"strings"
+	"time"
+
+	"gosymx/exec"
+)
+
+// Job: one harness exploration.
+type Job struct {
+	Harness   string
+	Args      []int64
+	Tier      string   // "quick": runs in both tiers; "thorough": thorough only
+	Merge     []string // merge-mode functions
+	Sites     []string // known-finding site predicates excused in the strict run
+	Excuses   []string // vKnown keys excused in the strict run
+	MaxSteps  int
+	MaxLoop   int
+	MaxPaths  int
+	TimeoutMs int
+	Covers    []string // cover points that must be reached on some path
+	Bounds    string   // human-readable statement of the bounds of this job
+	// PanicOK: panics whose message has this prefix are the expected result
+	// (C07 precision range); every other panic is a violation.
+	PanicOK string
+}
+
+type Property struct {
+	ID       string
+	Level    string
+	Jobs     []Job
+	Assumes  []string
+	Explain  string
+}
+
+type KnownFinding struct {
+	Property  string `json:"property"`
+	Status    string `json:"status"` // "known" or "fixed"
+	Harness   string `json:"harness,omitempty"`
+	Assertion string `json:"assertion,omitempty"`
+	Key       string `json:"key,omitempty"` // site name or vKnown key
+	Summary   string `json:"summary"`
+	Commit    string `json:"commit,omitempty"`
+}
+
+type violation struct {
+	Job       string
+	Assertion string
+	Kind      string // "assert", "panic", "hang", "monitor"
+	Witness   []string
+	Detail    string
+	Native    *exec.ReplayResult
+	Known     *KnownFinding
+	Args      []int64
+	Harness   string
+}
+
+type jobReport struct {
+	Name         string         `json:"job"`
+	Bounds       string         `json:"bounds"`
+	Strict       bool           `json:"known_findings_excused"`
+	Paths        int            `json:"paths"`
+	ByStatus     map[string]int `json:"paths_by_status"`
+	Obligations  map[string]int `json:"obligations_by_result"`
+	Queries      int            `json:"solver_queries"`
+	SolverS      float64        `json:"solver_time_s"`
+	WallS        float64        `json:"wall_s"`
+	Truncated    bool           `json:"truncated"`
+	Covers       []string       `json:"cover_points_reached"`
+	Inconclusive []string       `json:"inconclusive,omitempty"`
+	Rounds       int            `json:"float_rounding_terms"`
+	ApproxPaths  int            `json:"paths_with_float_approximation"`
+	FeasUnknown  int            `json:"feasibility_unknown"`
+	Sites        []string       `json:"site_predicates,omitempty"`
+}
+
+func jobName(j Job) string {
+	s := j.Harness
+	if len(j.Args) > 0 {
+		var a []string
+		for _, x := range j.Args {
+			a = append(a, strconv.FormatInt(x, 10))
+		}
+		s += "(" + strings.Join(a, ",") + ")"
+	}
+	return s
+}
+
+func loadKnown(path string) []KnownFinding {
+	b, err := os.ReadFile(path)
+	if err != nil {
+		return nil
+	}
+	var k []KnownFinding
+	if err := json.Unmarshal(b, &k); err != nil {
+		fmt.Fprintln(os.Stderr, "known_findings.json:", err)
+		os.Exit(2)
+	}
+	return k
+}
+
+func cmdCheck(args []string) int {
+	fs := flag.NewFlagSet("check", flag.ExitOnError)
+	propID := fs.String("property", "", "property id")
+	tier := fs.String("tier", envOr("VERIF_TIER", "quick"), "quick|thorough")
+	repo := fs.String("repo", envOr("VERIF_REPO", "/repo"), "repository dir")
+	vdir := fs.String("verif", envOr("VERIF_DIR", "/verif"), "verif dir")
+	workers := fs.Int("workers", runtime.NumCPU(), "workers")
+	only := fs.String("only", "", "only jobs whose name contains this")
+	fs.Parse(args)
+	seed, _ := strconv.Atoi(envOr("VERIF_SEED", "0"))
+	prop, ok := properties()[*propID]
+	if !ok {
+		fmt.Fprintln(os.Stderr, "unknown property", *propID)
+		return 2
+	}
+	t0 := time.Now()
+	hdir := filepath.Join(*vdir, "harness")
+	w, err := exec.Load(*repo, hdir)
+	if err != nil {
+		fmt.Fprintln(os.Stderr, "load:", err)
+		return 2
+	}
+	known := loadKnown(filepath.Join(*vdir, "known_findings.json"))
+	rp := &exec.Replayer{RepoDir: *repo, HarnessDir: hdir, WorkDir: filepath.Join(*vdir, ".work", fmt.Sprint(os.Getpid()))}
+	defer rp.Cleanup()
+	if err := rp.Build(w); err != nil {
+		fmt.Fprintln(os.Stderr, err)
+		return 2
+	}
+
+	var reports []jobReport
+	var viols []violation
+	var samples []any
+	funcs := map[string]int{}
+	stubs := map[string]bool{}
+	totalPaths, totalQueries, validated, mismatches := 0, 0, 0, 0
+	var mismatchNotes []string
+	inconclusive := 0
+	var vacuous []string
+	solverTime := 0.0
+	sampleEvery := 1
+
+	for _, job := range prop.Jobs {
+		if job.Tier == "thorough" && *tier != "thorough" {
+			continue
+		}
+		if *only != "" && !strings.Contains(jobName(job), *only) {
+			continue
+		}
+		entry := w.Entry(job.Harness)
+		if entry == nil {
+			fmt.Fprintln(os.Stderr, "no such harness:", job.Harness)
+			return 2
+		}
+		// strict run (known findings excused) and, if anything is excused, a
+		// second run without excuses to see whether the findings are live.
+		runs := []bool{true}
+		if len(job.Sites) > 0 || len(job.Excuses) > 0 {
+			runs = []bool{true, false}
+		}
+		for _, strict := range runs {
+			cfg := &exec.Config{MaxSteps: job.MaxSteps, MaxLoopIter: job.MaxLoop, SampleModel: true,
+				MergeFuncs: map[string]bool{}, Args: job.Args, Excuse: map[string]bool{}}
+			if cfg.MaxSteps == 0 {
+				cfg.MaxSteps = 2000000
+			}
+			if cfg.MaxLoopIter == 0 {
+				cfg.MaxLoopIter = 10000
+			}
+			for _, f := range job.Merge {
+				cfg.MergeFuncs[f] = true
+			}
+			if strict {
+				cfg.SiteAssume = exec.SiteAssumeFor(job.Sites)
+				for _, e := range job.Excuses {
+					cfg.Excuse[e] = true
+				}
+			}
+			to := job.TimeoutMs
+			if to == 0 {
+				to = 30000
+			}
+			st, err := exec.Explore(w, cfg, entry, *workers, job.MaxPaths, to, "z3-new", nil)
+			if err != nil {
+				fmt.Fprintln(os.Stderr, "explore:", err)
+				return 2
+			}
+			rep := jobReport{Name: jobName(job), Bounds: job.Bounds, Strict: strict && len(runs) == 2, Paths: st.Paths, ByStatus: st.ByStatus,
+				Obligations: map[string]int{}, Queries: st.Queries, SolverS: st.SolverTime.Seconds(), WallS: st.Wall.Seconds(),
+				Truncated: st.Truncated, Sites: job.Sites}
+			covers := map[string]bool{}
+			// deterministic order
+			sort.Slice(st.Results, func(i, j int) bool { return decKey(st.Results[i].Trace) < decKey(st.Results[j].Trace) })
+			var cases []exec.ReplayCase
+			type caseInfo struct {
+				kind string // "sat", "sample"
+				res  *exec.PathResult
+				ob   *exec.Obligation
+			}
+			var infos []caseInfo
+			for pi, r := range st.Results {
+				for k, v := range r.Funcs {
+					funcs[k] += v
+				}
+				for _, s := range r.Stubs {
+					stubs[s] = true
+				}
+				for _, c := range r.Covers {
+					covers[c] = true
+				}
+				rep.Rounds += r.Rounds
+				if r.Approx {
+					rep.ApproxPaths++
+				}
+				rep.FeasUnknown += r.FeasUnknown
+				switch r.Status {
+				case exec.PathUnsupported:
+					rep.Inconclusive = append(rep.Inconclusive, "unsupported: "+r.Detail)
+				case exec.PathBudget:
+					rep.Inconclusive = append(rep.Inconclusive, "unwinding: "+r.Detail)
+				}
+				for oi := range r.Obligations {
+					o := &r.Obligations[oi]
+					rep.Obligations[o.ID+":"+o.Result]++
+					if o.Result == "unknown" {
+						rep.Inconclusive = append(rep.Inconclusive, "unknown obligation "+o.ID)
+					}
+					if o.Result == "sat" && o.WitnessV != nil {
+						cases = append(cases, exec.ReplayCase{Harness: job.Harness, Args: job.Args, Witness: o.WitnessV})
+						infos = append(infos, caseInfo{"sat", r, o})
+					}
+				}
+				if r.Sample != nil && (pi%sampleEvery == 0 || r.Status != exec.PathOK || len(r.Monitors) > 0) {
+					cases = append(cases, exec.ReplayCase{Harness: job.Harness, Args: job.Args, Witness: r.Sample})
+					infos = append(infos, caseInfo{"sample", r, nil})
+				}
+				if len(samples) < 4 && r.Sample != nil && strict {
+					samples = append(samples, map[string]any{
+						"job": jobName(job), "decisions": decKey(r.Trace), "status": r.Status.String(),
+						"nondet_names": r.SampleNames, "sample_model": r.Sample,
+						"obligations": obSummary(r.Obligations), "steps": r.Steps,
+					})
+				}
+			}
+			for c := range covers {
+				rep.Covers = append(rep.Covers, c)
+			}
+			sort.Strings(rep.Covers)
+			if strict {
+				for _, c := range job.Covers {
+					if !covers[c] {
+						vacuous = append(vacuous, jobName(job)+": cover point "+c+" not reached")
+					}
+				}
+			}
+			results, err := rp.Run(cases)
+			if err != nil {
+				fmt.Fprintln(os.Stderr, "replay:", err)
+				return 2
+			}
+			for i, rr := range results {
+				inf := infos[i]
+				rrc := rr
+				switch inf.kind {
+				case "sat":
+					failed := false
+					for _, f := range rr.Failed {
+						if f == inf.ob.ID {
+							failed = true
+						}
+					}
+					if failed {
+						viols = append(viols, violation{Job: jobName(job), Assertion: inf.ob.ID, Kind: "assert", Witness: cases[i].Witness,
+							Detail: "solver model reproduced natively", Native: &rrc, Args: job.Args, Harness: job.Harness})
+					} else if rr.Panic != "" && !(job.PanicOK != "" && strings.HasPrefix(rr.Panic, job.PanicOK)) {
+						viols = append(viols, violation{Job: jobName(job), Assertion: inf.ob.ID, Kind: "panic", Witness: cases[i].Witness,
+							Detail: "native run panicked: " + rr.Panic, Native: &rrc, Args: job.Args, Harness: job.Harness})
+					} else {
+						rep.Inconclusive = append(rep.Inconclusive, "sat model of "+inf.ob.ID+" did not reproduce natively (float over-approximation or encoder error)")
+					}
+				case "sample":
+					r := inf.res
+					// native failures on a sample are real violations whatever the solver said
+					for _, f := range rr.Failed {
+						viols = append(viols, violation{Job: jobName(job), Assertion: f, Kind: "assert", Witness: cases[i].Witness,
+							Detail: "native assertion failure on a path sample", Native: &rrc, Args: job.Args, Harness: job.Harness})
+					}
+					if rr.TimedOut {
+						viols = append(viols, violation{Job: jobName(job), Assertion: "termination", Kind: "hang", Witness: cases[i].Witness,
+							Detail: "native run did not finish in 20s", Native: &rrc, Args: job.Args, Harness: job.Harness})
+					}
+					if rr.Panic != "" && !(job.PanicOK != "" && strings.HasPrefix(rr.Panic, job.PanicOK)) {
+						viols = append(viols, violation{Job: jobName(job), Assertion: "no-panic", Kind: "panic", Witness: cases[i].Witness,
+							Detail: "native run panicked: " + rr.Panic, Native: &rrc, Args: job.Args, Harness: job.Harness})
+					} else if r.Status == exec.PathPanic && rr.Panic == "" && !r.Approx {
+						mismatches++
+						mismatchNotes = append(mismatchNotes, fmt.Sprintf("%s %s: symbolic panic %q not reproduced", jobName(job), decKey(r.Trace), r.PanicMsg))
+					}
+					for _, me := range r.Monitors {
+						viols = append(viols, violation{Job: jobName(job), Assertion: "monitor:" + me.Kind, Kind: "monitor", Witness: cases[i].Witness,
+							Detail: me.Kind + " " + me.Detail + " at " + me.Where, Native: &rrc, Args: job.Args, Harness: job.Harness})
+					}
+					// translation validation of the encoder: observed outputs
+					if r.Status == exec.PathOK && !rr.BadAssume && !rr.Short {
+						var exp []string
+						for _, ob := range r.Observes {
+							exp = append(exp, ob.ID+"="+normNum(ob.Val))
+						}
+						var got []string
+						for _, o := range rr.Observes {
+							got = append(got, o)
+						}
+						if strings.Join(exp, " ") == strings.Join(got, " ") {
+							validated++
+						} else if r.Approx {
+							// allowed: the sample model need not be a float-exact execution
+						} else {
+							mismatches++
+							mismatchNotes = append(mismatchNotes, fmt.Sprintf("%s %s: sym %v native %v", jobName(job), decKey(r.Trace), exp, got))
+						}
+					}
+				}
+			}
+			inconclusive += len(rep.Inconclusive)
+			if len(rep.Inconclusive) > 12 {
+				n := len(rep.Inconclusive)
+				rep.Inconclusive = append(rep.Inconclusive[:12], fmt.Sprintf("... %d more", n-12))
+			}
+			totalPaths += st.Paths
+			totalQueries += st.Queries
+			solverTime += st.SolverTime.Seconds()
+			reports = append(reports, rep)
+			fmt.Printf("job %s strict=%v paths=%d %v obligations=%v inconclusive=%d wall=%.1fs\n", jobName(job), strict, st.Paths, st.ByStatus, rep.Obligations, len(rep.Inconclusive), st.Wall.Seconds())
+			// classification of violations of the non-strict run
+			if !strict {
+				for i := range viols {
+					v := &viols[i]
+					if v.Job != jobName(job) || v.Known != nil {
+						continue
+					}
+					v.Known = matchKnown(known, *propID, job, v)
+				}
+			}
+		}
+	}
+
+	// dedupe violations (same job/assertion/witness)
+	seen := map[string]bool{}
+	var uniq []violation
+	for _, v := range viols {
+		k := v.Job + "|" + v.Assertion + "|" + strings.Join(v.Witness, ",")
+		if !seen[k] {
+			seen[k] = true
+			uniq = append(uniq, v)
+		}
+	}
+	viols = uniq
+
+	exit := 0
+	nViol := 0
+	knownPrinted := map[string]bool{}
+	for _, v := range viols {
+		if v.Known != nil {
+			key := v.Known.Summary
+			if !knownPrinted[key] {
+				knownPrinted[key] = true
+				fmt.Printf("KNOWN-FINDING: property=%s %s\n", *propID, v.Known.Summary)
+			}
+			continue
+		}
+		nViol++
+		path := writeReplay(*vdir, *propID, v)
+		fmt.Printf("VIOLATION property=%s replay=%s\n", *propID, path)
+		fmt.Printf("  %s %s: %s witness=%v\n", v.Job, v.Assertion, v.Detail, v.Witness)
+		exit = 1
+	}
+	if mismatches > 0 {
+		fmt.Printf("ENCODER-MISMATCH property=%s count=%d (symbolic outputs differ from the native run on an exact path; the check is broken, not the code)\n", *propID, mismatches)
+		for _, n := range mismatchNotes {
+			fmt.Println("  ", n)
+			if len(n) > 0 && mismatches > 5 {
+				break
+			}
+		}
+		if exit == 0 {
+			exit = 2
+		}
+	}
+	if len(vacuous) > 0 {
+		for _, v := range vacuous {
+			fmt.Println("VACUOUS:", v)
+		}
+		if exit == 0 {
+			exit = 2
+		}
+	}
+	if inconclusive > 0 {
+		fmt.Printf("INCONCLUSIVE property=%s count=%d (not a pass for those paths; see evidence)\n", *propID, inconclusive)
+	}
+
+	// evidence
+	var fnames []string
+	for k := range funcs {
+		fnames = append(fnames, k)
+	}
+	sort.Strings(fnames)
+	var stubList []string
+	for s := range stubs {
+		stubList = append(stubList, s)
+	}
+	sort.Strings(stubList)
+	var knownMatched []string
+	for k := range knownPrinted {
+		knownMatched = append(knownMatched, k)
+	}
+	sort.Strings(knownMatched)
+	if len(samples) == 0 {
+		samples = append(samples, "no path produced a sample model")
+	}
+	ev := map[string]any{
+		"property_id": *propID,
+		"tier":        *tier,
+		"seed":        seed,
+		"level":       prop.Level,
+		"coverage": map[string]any{
+			"states":                        totalPaths,
+			"transitions":                   totalQueries,
+			"traces_validated_against_impl": validated,
+			"samples":                       samples,
+			"explanation":                   prop.Explain,
+			"jobs":                          reports,
+			"functions_encoded":             fnames,
+			"function_entries":              funcs,
+			"stubs_and_assumes":             stubList,
+			"solver":                        "z3 5.1.0 (z3-new -in): incremental for feasibility, fresh non-incremental context per proof obligation",
+			"solver_time_s":                 solverTime,
+			"inconclusive":                  inconclusive,
+			"encoder_mismatches":            mismatches,
+			"known_findings_matched":        knownMatched,
+			"vacuity_failures":              vacuous,
+			"evaluations":                   totalPaths,
+			"distinct_nontrivial":           totalPaths,
+			"rule":                          "one evaluation = one feasible path (distinct decision vector) of a harness through the real SSA, decided for all values of its symbolic inputs by the solver",
+		},
+		"assumptions": prop.Assumes,
+		"wall_s":      time.Since(t0).Seconds(),
+		"violations":  nViol,
+	}
+	b, _ := json.MarshalIndent(ev, "", " ")
+	os.MkdirAll(filepath.Join(*vdir, "evidence"), 0o755)
+	if err := os.WriteFile(filepath.Join(*vdir, "evidence", *propID+".json"), b, 0o644); err != nil {
+		fmt.Fprintln(os.Stderr, err)
+		return 2
+	}
+	fmt.Printf("property=%s tier=%s paths=%d queries=%d validated=%d violations=%d known=%d inconclusive=%d wall=%.1fs\n",
+		*propID, *tier, totalPaths, totalQueries, validated, nViol, len(knownPrinted), inconclusive, time.Since(t0).Seconds())
+	return exit
+}
+
+func normNum(s string) string {
+	s = strings.TrimSpace(s)
+	if strings.HasPrefix(s, "(- ") && strings.HasSuffix(s, ")") {
+		return "-" + strings.TrimSpace(s[3:len(s)-1])
+	}
+	return s
+}
+
+func decKey(t []exec.Dec) string {
+	var sb strings.Builder
+	for _, d := range t {
+		sb.WriteString(d.String())
+	}
+	return sb.String()
+}
+
+func obSummary(obs []exec.Obligation) []string {
+	var out []string
+	for _, o := range obs {
+		out = append(out, o.ID+":"+o.Result)
+	}
+	return out
+}
+
+func matchKnown(known []KnownFinding, prop string, job Job, v *violation) *KnownFinding {
+	for i := range known {
+		k := &known[i]
+		if k.Status != "known" || k.Property != prop {
+			continue
+		}
+		if k.Assertion != "" && k.Assertion != v.Assertion {
+			continue
+		}
+		if k.Harness != "" && k.Harness != job.Harness {
+			continue
+		}
+		// the finding's key must be one this job excuses
+		ok := false
+		for _, s := range job.Sites {
+			if s == k.Key {
+				ok = true
+			}
+		}
+		for _, s := range job.Excuses {
+			if s == k.Key {
+				ok = true
+			}
+		}
+		if ok {
+			return k
+		}
+	}
+	return nil
+}
+
+func writeReplay(vdir, prop string, v violation) string {
+	dir := filepath.Join(vdir, "replays", prop)
+	os.MkdirAll(dir, 0o755)
+	h := sha1.Sum([]byte(v.Job + "|" + v.Assertion + "|" + strings.Join(v.Witness, ",")))
+	path := filepath.Join(dir, fmt.Sprintf("%x.json", h[:6]))
+	b, _ := json.MarshalIndent(map[string]any{
+		"property": prop, "harness": v.Harness, "args": v.Args, "assertion": v.Assertion, "kind": v.Kind,
+		"witness": v.Witness, "detail": v.Detail, "native": v.Native,
+		"replay_cmd": fmt.Sprintf("bin/gosymx replay --file %s", path),
+	}, "", " ")
+	os.WriteFile(path, b, 0o644)
+	return path
+}
